@@ -1199,6 +1199,79 @@ func deadlineWait(backend string, s kvs.Storage, deadlines []time.Duration) (sig
 	return "", "", ""
 }
 
+// versionEdge (real clock, both backends): the version a waiter gives is data, not a pattern.
+//   - an empty version: nil at once on an existing key (every stored version differs from it), ErrNotExist on an
+//     absent, deleted or expired key - never nil there;
+//   - a writer that mentions the previous version inside the new VALUE (or in the key of a neighbour record) still
+//     changes the version: the parked waiter has to come back with nil.
+func versionEdge(backend string, s kvs.Storage, round int) (sig, what, inconclusive string) {
+	bg := context.Background()
+	wait := func(k, ver string, d time.Duration) (error, bool) {
+		ctx, cancel := context.WithTimeout(bg, d)
+		defer cancel()
+		err := s.WaitForVersionChange(ctx, k, ver)
+		return err, ctx.Err() != nil
+	}
+	// 1. empty version, absent key (never created / deleted / expired in the past)
+	absent := []string{"never-created"}
+	if r, err := s.Put(bg, kvs.Record{Key: "deleted", Value: []byte("x")}); err == nil && r.Version != "" {
+		if err := s.Delete(bg, "deleted"); err != nil {
+			return "", "", backend + " Delete: " + err.Error()
+		}
+		absent = append(absent, "deleted")
+	}
+	for _, k := range absent {
+		for _, ver := range []string{"", "some-version"} {
+			err, done := wait(k, ver, 20*time.Second)
+			if c := hist.Classify(err); c != hist.ENotExist && !(c == hist.ECtx && done) {
+				return backend + "/wait/absent-key-not-reported", fmt.Sprintf("WaitForVersionChange(%q, version %q) on an absent key returned %v, ErrNotExist expected", k, ver, err), ""
+			} else if c == hist.ECtx {
+				return backend + "/wait/absent-key-not-reported", fmt.Sprintf("WaitForVersionChange(%q, version %q) on an absent key did not return ErrNotExist within 20 s", k, ver), ""
+			}
+		}
+	}
+	// 2. empty version, existing key: the stored version differs from it
+	r0, err := s.Put(bg, kvs.Record{Key: "present", Value: []byte("x")})
+	if err != nil {
+		return "", "", backend + " Put: " + err.Error()
+	}
+	if err, _ := wait("present", "", 20*time.Second); err != nil {
+		return backend + "/wait/different-version-not-reported", fmt.Sprintf("WaitForVersionChange(present, version \"\") on an existing key (version %q) returned %v within 20 s, nil expected: the versions differ", r0.Version, err), ""
+	}
+	// 3. the new value mentions the old version
+	k := fmt.Sprintf("quoted-%d", round)
+	r1, err := s.Put(bg, kvs.Record{Key: k, Value: []byte("first")})
+	if err != nil {
+		return "", "", backend + " Put: " + err.Error()
+	}
+	res := make(chan error, 1)
+	go func() { err, _ := wait(k, r1.Version, 30*time.Second); res <- err }()
+	time.Sleep(time.Duration(1+round%5) * 20 * time.Millisecond) // parked (or not yet: both are legal starts)
+	val := []byte("prev=" + r1.Version + ";" + r1.Version)
+	var how string
+	switch round % 3 {
+	case 0:
+		how = "Put"
+		_, err = s.Put(bg, kvs.Record{Key: k, Value: val})
+	case 1:
+		how = "CasByVersion"
+		_, err = s.CasByVersion(bg, kvs.Record{Key: k, Value: val, Version: r1.Version})
+	default:
+		how = "PutMany"
+		err = s.PutMany(bg, []kvs.Record{{Key: k, Value: val, Version: r1.Version}, {Key: r1.Version, Value: []byte(r1.Version)}})
+	}
+	if err != nil {
+		return "", "", backend + " " + how + ": " + err.Error()
+	}
+	if got, gerr := s.Get(bg, k); gerr != nil || got.Version == r1.Version {
+		return "", "", fmt.Sprintf("%s %s did not change the version (%v)", backend, how, gerr)
+	}
+	if err := <-res; err != nil {
+		return backend + "/wait/missed-change-value-mentions-version", fmt.Sprintf("a waiter on version %q: a %s stored a new value that mentions that version; the record's version changed, the waiter returned %v (30 s; healthy < 0.2 s), nil expected", r1.Version, how, err), ""
+	}
+	return "", "", ""
+}
+
 const burstsPerRound = 60
 
 func TestCheck(t *testing.T) {
@@ -1386,6 +1459,33 @@ func TestCheck(t *testing.T) {
 			}(i, backend)
 		}
 	}
+	t.Run("version-edge", func(t *testing.T) {
+		for _, backend := range []string{"inmem", "redis"} {
+			var s kvs.Storage = inmem.New()
+			if backend == "redis" {
+				rs, err := kvmodel.NewRedisServer()
+				if err != nil {
+					run.Inconclusive("miniredis: " + err.Error())
+					continue
+				}
+				defer rs.Close()
+				s = rs.S
+			}
+			for round := 0; round < run.Pick(6, 60); round++ {
+				sig, what, inc := versionEdge(backend, s, round)
+				if inc != "" {
+					run.Inconclusive(inc)
+					break
+				}
+				run.Eval(7)
+				run.Add("version_edge_rounds_"+backend, 1)
+				if sig != "" {
+					run.Violation(sig, what, map[string]any{"scenario": "version-edge", "backend": backend, "round": round})
+					break
+				}
+			}
+		}
+	})
 	t.Run("free", func(t *testing.T) {
 		for _, backend := range []string{"inmem", "redis"} {
 			n := run.Pick(400, 20000)
